@@ -90,7 +90,7 @@ pub fn run(a: &Args) -> i32 {
         if !c.compiled {
             continue;
         }
-        let pg = PayloadGen { s: &c.schema, doc: &c.doc, deny_deprecated: false, max_list: 3, depth_budget: 4 };
+        let pg = PayloadGen { s: &c.schema, doc: &c.doc, deny_deprecated: false, max_list: 3, depth_budget: 4, absent_percent: 0 };
         for (mi, op) in c.doc.ops.iter().enumerate() {
             if mi >= c.modules.len() {
                 break;
